@@ -11,6 +11,7 @@ fn main() {
     let code = match args[1].as_str() {
         "from_ip" => comp::from_ip(&args[2..]),
         "txn" => comp::txn(&args[2..]),
+        "storage" => comp::storage(&args[2..]),
         other => {
             eprintln!("unknown subcommand {other}");
             2
